@@ -3,7 +3,7 @@
    AsyncFixedBuf::read_frame IS `drive` instantiated with the translated prefix `arf_pre`, tokio's Read future
    `poll_read_future`, and the translated suffix `arf_post`: Model/TokioAsync.v `arf_drive`). *)
 From FB Require Import Sem.Base Sem.Lemmas Sem.ReadBuf Sem.Async Model.Fb Model.TokioAsync Spec.Api
-  Facets.Fb Facets.Fb2 Facets.Rf Facets.Async Facets.C14Blocking Facets.AsyncCo.
+  Spec.Frames Facets.Fb Facets.Fb2 Facets.DfContract Facets.Rf Facets.Async Facets.C14Blocking Facets.AsyncCo Facets.ARSim Facets.C14Frames Facets.C14Example.
 Open Scope Z_scope.
 
 (* the tokio crate's loop is the blocking loop: the translated BLOCKING body = async prefix; blocking read into the view; async suffix *)
@@ -48,6 +48,33 @@ Proof.
   destruct (Facets.Async.c14_pending_invisible SIZE chk A df Hdf n k w HI Hfin cancel) as (polls & Hp).
   exists polls. intros p Hle. rewrite (Hp p Hle). symmetry. exact (Facets.C14Blocking.read_frame_is_bloop SIZE chk A df Hdf Hq n k w HI Hfin).
 Qed.
+
+(* "so C02 ... hold for them": under ANY placement of Pending among the reader's polls and ANY cancellation pattern, the async
+   read_frame returns what the chunk-free specification `next` gives on unread ++ unpulled (the stream's next frame, the same bytes left
+   over), for every reader that — polled until ready — behaves as an abstract reader which is a chunk-schedule transport up to a state
+   map `phi` (the map forgets what the transport keeps beside the stream, e.g. its Pending marks) *)
+Theorem c14_async_gets_next : forall SIZE chk RS (A : AsyncReader RS) (AR : AReader RS) (phi : RS -> stream_reader) (P : RS -> Prop) df k,
+  quiet A -> implements (BR A k) AR -> ar_sim AR stream_ar phi P -> df_contract SIZE df ->
+  forall n s rs, Inv2 SIZE s -> P rs -> zlen (sr_rest (phi rs)) < Z.of_nat n ->
+  finished (bloop (rf_pre chk df) (rf_await A) (rf_post chk) n k (s, rs)) ->
+  forall cancel, exists polls, forall p, (polls <= p)%nat ->
+    exists x s' rs' o, arf_drive chk A p cancel df (s, rs) = Ready x (s', rs') /\ out_of (Done x) = Some o /\
+      (o, unread s' ++ sr_rest (phi rs')) = next SIZE df (unread s ++ sr_rest (phi rs)) /\ Inv2 SIZE s' /\ P rs'.
+Proof. exact async_read_frame_gets_next. Qed.
+
+(* non-vacuity of c14_async_gets_next: a transport that answers Pending (a chunk schedule with Pending marks beside it, no more than two
+   in a row) meets its three hypotheses with k = 2; and a run: "ab\n" arrives as 'a', Pending, Pending, 'b', Pending, '\n', the second
+   pending point is a cancellation point, the frame "ab" comes out and nothing is left unread *)
+Example c14_gets_next_ex :
+  quiet PA /\ implements (BR PA 2) (PAR 2) /\ ar_sim (PAR 2) stream_ar fst (PP 2) /\
+  PP 2 ({| sr_rest := [97; 98; 10]; sr_sched := [1; 1; 1] |}, [false; true; true; false; true; false]) /\
+  match arf_drive true PA 12 [false; true; false]
+          (fun d => match d with [97; 98; 10] => DFrame 0 2 3 | _ => DNone end)
+          (new 8, ({| sr_rest := [97; 98; 10]; sr_sched := [1; 1; 1] |}, [false; true; true; false; true; false])) with
+  | Ready (FFrame p) (s', _) => p = [97; 98] /\ unread s' = []
+  | _ => False
+  end.
+Proof. exact c14_example. Qed.
 
 (* copy_once_from: the same three statements (it is the same lowering without a loop: prefix = writable() / full check, suffix = wrote(n)) *)
 Theorem c14_copy_once_pending_invisible : forall SIZE chk RS (A : AsyncReader RS) n k w, WI SIZE w ->
@@ -100,3 +127,4 @@ Print Assumptions c14_blocking_is_read_frame.
 Print Assumptions c14_async_equals_blocking.
 Print Assumptions c14_copy_once_pending_invisible.
 Print Assumptions c14_copy_once_blocking.
+Print Assumptions c14_async_gets_next.
